@@ -25,7 +25,7 @@ List == /\ pc = "new"
 (* One iteration of the loop in Next with a name left. *)
 Pop == /\ pc = "next" /\ remaining # <<>>
        /\ LET e == Head(remaining)
-              outcome == CASE e.kind = "good" -> "ok"
+              outcome == CASE IsGood(e) -> "ok"
                            [] e.kind \in {"subdir", "vanish", "dangling"} -> "read-error"
                            [] OTHER -> "parse-error"
           IN /\ pops' = Append(pops, [name |-> e.name, outcome |-> outcome])
